@@ -461,8 +461,9 @@ pub fn run_worker(prop: &dyn Prop, args: WorkerArgs) -> WorkerReport {
                 // A panic that escaped the check's own catch is attributed to
                 // the subject: checks wrap their oracle-side code so that it
                 // cannot panic on enumerated input.
+                let short: String = msg.chars().take(90).collect();
                 Verdict::Fail {
-                    signature: format!("panic:{}", case.key),
+                    signature: format!("panic:{short}"),
                     detail: format!("subject panicked: {msg}"),
                 }
             }
